@@ -32,7 +32,9 @@ META = {
                   'named keeps its original behaviour; (5) a mocked method enters the callback with the caller\'s receiver as argument 0 for '
                   'every instance; (6) for every history of the handle-level model (kept Struct(..).Method / ExportMethod / ExportStruct(..).Method '
                   'handles with Apply, Return, Returns, When..Return, As(..).Return, Cancel, re-arming, Reset) a method no lookup names is never '
-                  'patched, Apply on a handle hits exactly its target, and on one-shot histories the handle-level model refines the patch-level one. '
+                  'patched, Apply on a handle hits exactly its target, and on one-shot histories the handle-level model refines the patch-level one; '
+                  '(7) a guard created with patch.InstanceMethod installs the callback given at creation whatever other guards are created in between; '
+                  '(8) GetInnerFunc over an instruction list returns the first CALL that leaves the wrapper. '
                   'Observed, not proved: the linker\'s naming, reflect\'s method table, compiler wrappers / shape bodies / '
                   'devirtualisation, register preservation by the entry jump.',
     'level_note': 'Promoted methods of embedded structs are mocked through the outer type and called through its method set (a real '
@@ -272,7 +274,8 @@ def emit_sources(types, gens, entries, outdir):
         call = f'CallE{e["id"]}' if e['pk'] == 'pa' else f'{PKGS[e["pk"]][2]}.CallE{e["id"]}'
         reg.append(f'\t{{ID: {e["id"]}, Pkg: "{e["pkg"]}", T: "{e["T"]}", Ptr: {"true" if e["ptr"] else "false"}, M: "{e["m"]}", '
                    f'K: {e["K"]}, NP: {e["np"]}, Call: {call}, Look: lookE{e["id"]}, Cb: cbE{e["id"]}, StandIn: standInE{e["id"]}, '
-                   f'Tmpl: {("tmplE%d" % e["id"]) if (e["pk"] == "pa" or e["exported_type"]) else "nil"}}},')
+                   f'Tmpl: {("tmplE%d" % e["id"]) if (e["pk"] == "pa" or e["exported_type"]) else "nil"}, '
+                   f'Orig: {("origPtrE%d" % e["id"]) if has_origin(e) else "nil"}, CbO: {("cbOE%d" % e["id"]) if has_origin(e) else "nil"}}},')
     reg.append('}')
     d = os.path.join(outdir, 'pa')
     fp = os.path.join(d, 'reg_gen_test.go')
@@ -353,6 +356,11 @@ def call_func(e):
     return '\n'.join(L)
 
 
+def has_origin(e):
+    """entries for which the Origin(..) path is generated: real static types available, ordinary methods"""
+    return (e['pk'] == 'pa' or e['exported_type']) and not e['generic'] and not e['promoted'] and e['layout'] != 4
+
+
 def mock_func(e):
     """Per entry: tmplE<id> (template instance for Struct), lookE<id> (the lookup through the requested API path),
     cbE<id> (typed callback number k), standInE<id> (typed stand-in for As)."""
@@ -406,18 +414,30 @@ def mock_func(e):
             # a VALUE method mocked through a POINTER instance (what README 1.2 shows for pointer methods)
             L += ['\tcase "SP":', f'\t\treturn b.Struct(&{go_type(e, "pa")}{{}}).Method(m)']
     if not e['generic']:
-        L += ['\tcase "EC":', '\t\treturn b.ExportStruct(raw).Method(m)', '\tcase "ES":', '\t\treturn b.Pkg(pkg).ExportStruct(raw).Method(m)']
+        L += ['\tcase "EC":', '\t\treturn b.ExportStruct(raw).Method(m)', '\tcase "ES":', '\t\treturn b.Pkg(pkg).ExportStruct(raw).Method(m)',
+              '\tcase "EF":', '\t\treturn b.Pkg(pkg).ExportFunc(raw)     // raw = "(*T).m" | "T.m"']
     L += ['\t}', '\tpanic("probe: API path not generated for this entry")', '}', '']
     sp_cb = None
     if visible and not e['ptr'] and not e['promoted']:
         # if this ever runs for a call of the value method, the receiver was not handed over unchanged (types differ)
         sp_cb = f'func(r *{go_type(e, "pa")}{pl}) int64 {{ w.Hit(k, false, {argok}); return w.Sentinel }}'
+    if has_origin(e):
+        an = ['', 'x', 'x, s', 'a, b', 'c'][e['np']]
+        want = f'w.WantA*1000003 + {e["K"]}' + ['', ' + x*31', ' + x*31 + int64(len(s))', ' + a[0]*31 + b[3]', ' + c[3]*31'][e['np']]
+        rt = ('*' if e['ptr'] else '') + go_type(e, 'pa')
+        L += [f'// origE{i} is the placeholder goom turns into "the original {e["go"]}.{e["m"]}" (Origin)',
+              f'var origE{i} = func(r {rt}{pl}) int64 {{', '\tw.Id(1)', '\tw.Id(2)', '\tw.Id(3)', '\treturn w.Id(-1)', '}', '',
+              f'func origPtrE{i}() interface{{}} {{ return &origE{i} }}', '',
+              f'func cbOE{i}(k int) interface{{}} {{',
+              f'\treturn func(r {rt}{pl}) int64 {{',
+              f'\t\to := origE{i}(r{", " + an if an else ""})',
+              f'\t\tw.Hit(k, {recv_ok}, {argok} && o == {want})', '\t\treturn w.Sentinel', '\t}', '}', '']
     for name, real, fake in ((f'cbE{i}(via string, k int)', real_cb, fake_cb), (f'standInE{i}(via string)', real_si, fake_si)):
         L.append(f'func {name} interface{{}} {{')
         if sp_cb and name.startswith('cbE'):
             L += ['\tif via == "SP" {', f'\t\treturn {sp_cb}', '\t}']
         if fake:
-            L += ['\tif via == "ES" || via == "EC" {', f'\t\treturn {fake}', '\t}']
+            L += ['\tif via == "ES" || via == "EC" || via == "EF" {', f'\t\treturn {fake}', '\t}']
         if real:
             L.append(f'\treturn {real}')
         else:
@@ -431,6 +451,9 @@ def mock_func(e):
 def step_tok(via, e, m=None, raw=None, pkg=None, tmpl=None):
     m = e['m'] if m is None else m
     pkg = e['pkg'] if pkg is None else pkg
+    if via == 'EF':
+        fn = (f'(*{e["T"]})' if e['ptr'] else e['T']) + '.' + m if raw is None else raw
+        return f'EF~{pkg}~{fn}~{e["id"]}'
     if via == 'SP':
         return f'SP~{pkg}~{e["T"]}~1~{m}~{e["id"]}'
     if via in ('SM', 'SX'):
@@ -451,6 +474,7 @@ def vias_for(e):
         v.append('ES')
         if e['pk'] == 'pa':
             v.append('EC')
+        v.append('EF')
     return v
 
 
@@ -659,6 +683,20 @@ def gen_hists(tier, rng, entries):
         parts = e['pkg'].split('/')
         for cut in (len(parts) - 1, len(parts) - 2, 1, 3):
             H.append(('malformed-pkg-suffix', [step_tok('ES', e, pkg='/'.join(parts[cut:]))]))
+    # lane 14: two live mocker objects on ONE method (different API paths), the displaced one cancelled
+    two = [e for e in entries if not e['generic'] and (e['pk'] == 'pa' or e['exported_type']) and e['m'][0].isupper() and not e['promoted']]
+    for e in two[::(9 if tier == 'quick' else 2)]:
+        a, b2 = f'L~0~{step_tok("SM", e)}', f'L~1~{step_tok("ES", e)}'
+        H.append(('two-mockers', [a, b2, 'A~0', 'A~1', 'C~0']))
+        H.append(('two-mockers', [a, b2, 'A~0', 'A~1', 'C~1']))
+        H.append(('two-mockers', [a, b2, 'A~1', f'T~0~{val(60)}', 'C~1', 'A~1']))
+    # lane 13: Origin(&placeholder): the mock goes through the trampoline path and the callback calls the original through it
+    oe = [(e, via) for e in entries if has_origin(e) for via in vias_for(e) if via in ('SM', 'SX')]
+    for e, via in oe[::(6 if tier == 'quick' else 2)]:
+        lk = f'L~0~{step_tok(via, e)}'
+        H.append(('origin', [lk, 'O~0', 'A~0']))
+        H.append(('origin', [lk, 'O~0', 'A~0', 'C~0', 'A~0']))
+        H.append(('origin', [lk, 'A~0', 'C~0', 'O~0', 'A~0']))
     # lane 10: the patch package used directly — guards created first, applied / unpatched later, interleaved
     gable = [e for e in entries if e['m'][0].isupper() and (e['pk'] == 'pa' or e['exported_type'])]
     gn = lambda h, e: f'GN~{h}~{e["pkg"]}~{e["T"]}~{1 if e["ptr"] else 0}~{e["m"]}~{e["id"]}'
@@ -730,6 +768,12 @@ def step_target(tok, entries, index):
         raw = f[2]
         ptr = raw.startswith('*')
         return index.get((f[1], raw[1:] if ptr else raw, ptr, f[3]))
+    if f[0] == 'EF':
+        m = re.match(r'^\(\*([^()]+)\)\.([^.]+)$', f[2])
+        if m:
+            return index.get((f[1], m.group(1), True, m.group(2)))
+        t, _, mm = f[2].rpartition('.')
+        return index.get((f[1], t, False, mm))
     return None
 
 
@@ -775,7 +819,7 @@ def guard_oracle(steps, res, hits, after, entries, index, name):
 def lookup_of(tok):
     """the lookup text inside a step token (None for steps without one) and its API path"""
     f = tok.split('~')
-    if f[0] in ('SM', 'SX', 'ES', 'EC', 'SP'):
+    if f[0] in ('SM', 'SX', 'ES', 'EC', 'SP', 'EF'):
         return f
     if f[0] == 'L':
         return f[2:]
@@ -806,7 +850,7 @@ def oracle(steps, obs, entries, index):
         if e is None:
             continue
         concerns = died or name(e) in why or tok in why
-        byname = (lk and lk[0] in ('SX', 'ES', 'EC')) or (f[0] in ('D', 'RD') and f[2] == 'UM')
+        byname = (lk and lk[0] in ('SX', 'ES', 'EC', 'EF')) or (f[0] in ('D', 'RD') and f[2] == 'UM')
         if concerns and lk and lk[0] == 'SP':
             return why, 'value-method-via-pointer', notes
         if concerns and e.get('duff'):
@@ -834,6 +878,7 @@ def oracle_core(steps, obs, entries, index):
     armed = {}        # call symbol -> {'kind': 'cb'|'stub', 'k': step, 'vals': set, 'targets': set(entry ids)}
     handles = {}      # handle -> entry or None
     direct = set()    # handles of mockers made with the exported constructors
+    with_origin = set()   # handles with an Origin placeholder set (Cancel forgets it)
     gaps = []         # (step, entry): by-name step on a generic instantiation (known finding C06-K1)
     byname_generic = set()
     for k, tok in enumerate(steps):
@@ -843,6 +888,7 @@ def oracle_core(steps, obs, entries, index):
             if res[k] != 'ok':
                 return f'builder Reset answered {res[k]}', None, notes
             armed = {sy: a for sy, a in armed.items() if a.get('h') in direct}    # the builder does not know directly constructed mockers
+            with_origin = {h for h in with_origin if h in direct}
             continue
         if op in ('D', 'RD'):
             if f[2] == 'UM':
@@ -863,10 +909,18 @@ def oracle_core(steps, obs, entries, index):
             if e is not None and res[k] != 'ok':
                 return f'step {k} `{tok}` looks up an existing method with the right receiver kind but was answered {res[k]}', None, notes
             continue
+        if op == 'O':
+            if handles.get(f[1]) is not None:
+                if res[k] != 'ok':
+                    return f'step {k} `{tok}` (Origin) on a handle of {name(handles[f[1]])} was answered {res[k]}', None, notes
+                with_origin.add(f[1])
+            continue
         if op in ('A', 'T', 'S', 'W', 'SW', 'C'):
             e = handles.get(f[1])
             if e is None:
                 continue
+            if op == 'C':
+                with_origin.discard(f[1])
             sym = call_sym(e)
             if res[k] != 'ok':
                 return f'step {k} `{tok}` on a handle of {name(e)} was answered {res[k]}', None, notes
@@ -874,7 +928,7 @@ def oracle_core(steps, obs, entries, index):
             if op == 'C':
                 armed.pop(sym, None)
             elif op == 'A':
-                armed[sym] = {'kind': 'cb', 'k': k, 'vals': set(), 'targets': {e['id']}, 'h': f[1]}
+                armed[sym] = {'kind': 'cb', 'k': k, 'vals': set(), 'targets': {e['id']}, 'h': f[1], 'origin': f[1] in with_origin}
             else:
                 if op == 'T':
                     vals = f[2:3]
@@ -916,6 +970,9 @@ def oracle_core(steps, obs, entries, index):
                 return f'{name(e)} shows {"/".join(h["t"])} on its three instances, but it is currently mocked by the callback of step {a["k"]}', None, notes
             if not h['rok']:
                 return f'callback {a["k"]} for {name(e)} did not receive the caller\'s receiver unchanged as first argument', None, notes
+            if not h['aok'] and a.get('origin'):
+                return (f'callback {a["k"]} for {name(e)} called the Origin placeholder and did not get the result of the original method '
+                        f'(or saw other arguments)'), None, notes
             if not h['aok']:
                 notes['dictshift' if e['generic'] else 'args-differ'] += 1
         else:
@@ -1152,7 +1209,7 @@ def run(tier):
     lanes = gen_hists(tier, rng.fork('hist'), entries)
     hists = [s for _, s in lanes]
     lane_floor = collections.Counter(l.split(':')[0] for l, _ in lanes)
-    for need in ('value-via-pointer', 'malformed-pkg-suffix', 'single', 'malformed-method', 'malformed-type', 'malformed-pkg', 'collide-pkgname', 'siblings', 'random', 'template', 'handle',
+    for need in ('origin', 'value-via-pointer', 'malformed-pkg-suffix', 'single', 'malformed-method', 'malformed-type', 'malformed-pkg', 'collide-pkgname', 'siblings', 'random', 'template', 'handle',
                  'reuse', 'guards', 'k1-poison'):
         if lane_floor[need] < 3:
             raise C.Infra(f'C06 generator produced no `{need}` histories: the corpus/generator is broken, nothing was checked')
@@ -1188,6 +1245,11 @@ def run(tier):
     diffs = [(i, hists[i], impl[i], model[i]) for i in range(len(hists))
              if model is not None and impl[i] != model[i] and lanes[i][0] != 'k1-poison' and i not in known_idx and not same_modulo_known(i)]
     if missing and not hard:
+        rc_, gv, _ = C.sh(['go', 'version'], env=C.goenv())
+        if ' go1.23' not in gv:
+            # the shape spellings (go.shape.*) and the wrapper scheme written into the corpus are those of go1.23: with another
+            # toolchain a missing symbol says something about the check, not about goom
+            raise C.Infra(f'C06 corpus is written for go1.23 symbol naming, found `{gv.strip()}`: {missing[0]} not in the binary')
         out.violation(f'linker-name SPEC of the model is wrong for this toolchain: {missing[0]} is not a symbol of the probe binary',
                       {'kind': 'model-validation', 'missing': missing[:10]}, no_failing_input=True)
     if not hard:
